@@ -216,7 +216,15 @@ class C17:
         ctx = set(self.CTX) | self.extra_names
         try:
             with harness.alarm(20):
-                return "ok", (norm(self.ex.parser.parse(s if s.endswith("\n") else s + "\n")), norm(self.ex.parse(s, ctx=ctx)))
+                # the context-free tree exists only for sources whose every line is Python-shaped or explicitly wrapped; bare
+                # command lines are judged on the tree the execer builds (wrap-and-retry included)
+                try:
+                    raw = norm(self.ex.parser.parse(s if s.endswith("\n") else s + "\n"))
+                except SyntaxError:
+                    if getattr(self, "python_only", False):
+                        raise  # a corpus statement is Python: if xonsh cannot read it as such (C01's subject) it is not judged here
+                    raw = None
+                return "ok", (raw, norm(self.ex.parse(s, ctx=ctx)))
         except SyntaxError as e:
             return "SyntaxError", str(e)[:80]
         except harness.CaseTimeout:
@@ -281,6 +289,7 @@ class C17:
             return self.run_cli(case, rec)
         s = case["src"]
         self.extra_names = set()
+        self.python_only = bool(case.get("corpus"))
         if case.get("corpus"):
             # corpus statements are Python: every name they mention is bound, so no line is read as a command
             try:
@@ -371,6 +380,9 @@ class C17:
         # directed: the property's own example and the pilot's classes
         if sh["index"] == 0:
             for s, n, risk in [("x = '''a  \nb'''\n", "x = '''a\nb'''\n", "string-trailing-blank"), ("scp a b:c\n", "scp a bc\n", "colon-word"), ("echo a,b\n", "echo ab\n", "comma-word"), ("echo x==y\n", "echo xy\n", "operator-word"), ("with! ctxm:\n    raw  block  text\n", "with! ctxm:\n    raw block text\n", "block-macro-blank-run"), ("m = f'X{x  =}Y'\n", None, None), ("m = f'expr={ {k: v for k, v in [(1, 2)]} }'\n", None, None),
+                               # raw macro text holding a `#` that is not a comment; a command whose first argument is an f-string
+                               ("cmd0! issue#42   is   open\n", None, None), ("cmd0! a#b\n", None, None), ("r = mac!(title,\n    width=80 # columns\n)\n", None, None), ("r = mac!(a#b   c)\n", None, None),
+                               ("cmd0 f\"build {val} done\" --urgency=low\n", None, None), ("cmd0 f'{val}' -o x -k v\n", None, None), ("cmd0 rf'{val}\\d' --flag=1 \\\n    --other=2\n", None, None), ("cmd0 F'{val}' k=v\n", None, None),
                                ("s = 'page1\u2028page2'\n\nwith ctxm:\n        cmd0 | cmd1 -x\n", "s = 'page1-page2'\n\nwith ctxm:\n        cmd0 | cmd1 -x\n", "line-boundary-char")]:
                 self.run_case({"kind": "src", "src": s, "neutral": n, "risk": risk}, rec)
         for i in harness.budgeted(range(sh["n"]), rec):
